@@ -654,6 +654,10 @@ def c06_optional_layouts(tier):
         L = Layout(N, [Field("f0", ty_for_width(max(1, N // 2)), [(0, max(1, N // 2))], None, "rw")], default=("lit", (1 << (N - 1)) | 0x23, "hex"), tag=f"u{N}: default declared AND #[derive(Default)] on the struct")
         L.derives = "Default"
         Ls.append(L)
+    for N in (8, 16, 32, 64):
+        for (v, lf) in (((1 << N) | 0xff, "hex"), ((1 << N) + 70000, "dec"), ((1 << (N + 4)) | 1, "hex_")):
+            L = Layout(N, [Field("f0", T_bool(), [(0, 1)], None, "rw")], default=("lit", v, lf), tag=f"u{N}: literal default {v:#x} does not fit the native base")
+            Ls.append(L)
     for N in (7, 14, 24, 33, 65, 100):
         st = storage_bits(N)
         for (form, v) in (("lit", (1 << N) | 0x5), ("const", (1 << (st - 1)) | 0x12), ("lit", mask(st))):
@@ -1099,6 +1103,11 @@ def list_syntax_layouts():
         Ls.append(Layout(W, [Field("f", T_uint(8), [(0, 4), (8, 4)], None, "rw", list_split=1), Field("g", T_uint(2), [(16, 1), (18, 1)], None, "rw", list_trailing_comma=True),
                              Field("h", T_uint(4), [(20, 2), (12, 2)], (2, 2, True), "rw", list_trailing_comma=True)], tag=f"lists split over two attributes / with trailing commas on u{W}"))
         Ls.append(Layout(W, [Field("f", T_uint(12), [(1, 3), (5, 3), (9, 3), (13, 3)], None, "rw", list_split=2), Field("a", T_uint(4), [(W - 6, 1), (W - 4, 1), (W - 8, 1), (W - 2, 1)], None, "rw", list_split=3, form="bit_list")], tag=f"four-entry lists split 2+2 and 3+1 on u{W}"))
+    for W in (32, 24, 128):
+        Ls.append(Layout(W, [Field("a", T_uint(8), [(8, 8)], None, "rw", args_trailing_comma=True), Field("b", T_uint(8), [(0, 4), (4, 4)], None, "rw", args_trailing_comma=True), Field("c", T_bool(), [(16, 1)], (3, 2, True), "rw", args_trailing_comma=True)], tag=f"attribute argument lists ending in a comma on u{W}"))
+    # every-other-bit lists whose length is not a power of two
+    for (W, n, arr) in ((16, 5, None), (32, 6, (2, 1, True)), (32, 7, None), (64, 12, None), (128, 9, (2, 64, True)), (24, 11, None)):
+        Ls.append(Layout(W, [Field("e", T_uint(n), [(2 * k, 1) for k in range(n)], arr, "rw")], tag=f"every other bit, {n} entries{', array' if arr else ''} on u{W}"))
     # long lists: Morton codes and friends
     Ls.append(Layout(64, [Field("coord", T_uint(16), [(2 * k, 1) for k in range(16)], (2, 1, True), "rw")], tag="Morton code: 16 single-bit entries, interleaving array of two on u64"))
     Ls.append(Layout(128, [Field("m", T_uint(16), [(4 * k + 1, 1) for k in range(16)], None, "rw"), Field("n", T_uint(12), [(4 * k, 1) for k in range(12)], (2, 64, True), "rw")], tag="lists of 16 and 12 single-bit entries on u128"))
@@ -1849,6 +1858,14 @@ def c09_candidates(tier):
         add(W, [Field("reserved", T_uint(4), [(0, 4)], (W // 4 + 1, 4, False), "")], "array-beyond-storage-width", f"reserved [u4;{W // 4 + 1}] on u{W}, no access specifier")
         L = Layout(W, [Field("reserved", T_uint(2), [(0, 1), (4, 1)], (2, 2, False), "")], tag=f"reserved array of lists without stride on u{W}, no access specifier")
         C.append((L, "list-array-without-stride"))
+    for W in (8, 32, 24):
+        L = Layout(W, [Field("f", T_uint(4), [(0, 4)], (3, 200, True), "r", raw_attr="#[bits(0..=3, r, stride = 9223372036854775808)]")], tag=f"read-only [u4;3] with stride 2^63 on u{W}")
+        C.append((L, "huge-stride-wraps"))
+        L = Layout(W, [Field("f", T_uint(2), [(0, 1), (2, 1)], (2, 200, True), "r", raw_attr="#[bits([0, 2], r, stride = 18446744073709551615)]")], tag=f"read-only array of lists with stride 2^64-1 on u{W}")
+        C.append((L, "huge-stride-wraps"))
+    for N in (24, 12, 100):
+        st = storage_bits(N)
+        add(N, [Field("x", T_uint(N + 8), [(0, N + 4), (8, 4)], None, "rw")], "list-item-beyond-base-width", f"overlapping list [0..={N + 3}, 8..=11] typed u{N + 8} on u{N}: the LONGER entry starts lower and reaches above bit {N - 1}")
     # 5. degenerate arrays
     for W in (8, 32):
         L = Layout(W, [Field("f", T_uint(4), [(0, 4)], (1, 4, False), "rw")], tag=f"[u4;1] on u{W}")
@@ -2028,6 +2045,9 @@ def c14_candidates(tier, seed):
         q = W // 4
         add(W, [Field("a", T_uint(W), [(0, h), (q, h)], None, "rw")], "self-overlapping-list", f"self-overlapping list as wide as u{W} as the only field, no default")
         add(W, [Field("a", T_uint(W), [(0, h), (q, h)], None, "w")], "self-overlapping-list", f"write-only self-overlapping list as wide as u{W}, with default", default=D(W))
+    for W in (32, 64, 24):
+        add(W, [Field("a", T_uint(8), [(0, 4), (2, 4)], (W // 8, 8, True), "rw")], "self-overlapping-list", f"array of self-overlapping lists [0..=3, 2..=5] with disjoint elements, default, on u{W}", default=D(W))
+        add(W, [Field("a", T_uint(2), [(1, 1), (1, 1)], (3, 2, True), "rw")], "self-overlapping-list", f"array of lists [1, 1] with disjoint elements, default, on u{W}", default=D(W))
     # three-item lists with a far collision
     add(16, [Field("a", T_uint(3), [(0, 1), (1, 1), (6, 1)], (3, 3, True), "rw")], "colliding-array-of-lists", "items {0,1,6} stride 3 K=3: element 0 and 2 share bit 6", default=D(16))
     add(32, [Field("a", T_uint(4), [(0, 2), (12, 2)], (4, 4, True), "rw")], "colliding-array-of-lists", "ranges {0..1,12..13} stride 4 K=4: element 0 and 3 collide", default=D(32))
